@@ -33,9 +33,13 @@ func init() {
 		ID: "C06",
 		Rule: "cases: verify <sk> <msg> <sig> with sk in {0,1,r-1,random}, msg in {empty, 1 MiB, random, short} (keccak ≥ r and < r both occur), sig = valid signature or a mutation " +
 			"(one bit flipped in every byte, −S, identity, off-curve, swapped coordinates, signature of another key / another message, x+p and y+p re-encodings, trailing bytes, truncated, S+G, random on-curve point); " +
-			"sign <sk> <msg> (emitted signature and public key are canonical EVM encodings); conc <sk> <msg> <sig> <mul|sum> <rounds> <n> (per round a fresh non-normalised key object shared by n goroutines released together: every verdict = the EVM verdict, the key afterwards encodes as an independent copy, inputs unmodified). non-trivial = every verify case with a non-empty signature, every sign case; distinct = distinct case line",
-		Gen:  gen,
-		Exec: exec,
+			"sign <sk> <msg> (emitted signature and public key are canonical EVM encodings); conc <sk> <msg> <sig> <mul|sum> <rounds> <n> (per round a fresh non-normalised key object shared by n goroutines released together: every verdict = the EVM verdict, the key afterwards encodes as an independent copy, inputs unmodified); " +
+			"hist <tag> <steps> (call HISTORIES on shared mutable caller objects: message/signature/key byte buffers refilled in place with the same or another length, sub-slices of one backing array, append into spare capacity, " +
+			"the same kyber.Point / kyber.Scalar objects set again, interleaved calls on other messages, tbls.Verify over shared key objects, random walks: every call's outcome = the model's outcome for the VALUES at call time (no hidden state) " +
+			"and = the EVM predicate on copies taken before the call; a call writes to no caller memory); par <rounds> <calls> (concurrent Sign/Verify calls on different values). non-trivial = every verify case with a non-empty signature, every sign case; distinct = distinct case line",
+		Gen:    gen,
+		Exec:   exec,
+		Shrink: shrinkLine,
 	})
 }
 
@@ -164,6 +168,10 @@ func exec(line string) (res h.Result) {
 	res.Class = w[0]
 	res.Nontrivial = true
 	switch w[0] {
+	case "hist":
+		return execHist(w)
+	case "par":
+		return execPar(w)
 	case "verify":
 		sk, msg, sig := h.BigDec(w[1]), msgOf(w[2]), h.UnHex(w[3])
 		X := suite.G2().Point().Mul(scalar(sk), nil)
